@@ -9,7 +9,7 @@ Python side: the real `hail.expr.types.tcall._to_encoding / _from_encoding` (Byt
 `small_allele_pair`, `hail.genetics.Call` and `Call.unphased_diploid_gt_index`.
 
 Enumerated (all of it, smallest first): ploidy 0; ploidy 1 alleles 0..300 and 2^e-1, 2^e, 2^e+1 up to the engine's maximum
-2^29-1; ploidy 2 every ordered pair with both alleles <= 64 phased and unphased, a boundary grid of alleles around every
+2^29-1; ploidy 2 every ordered pair with both alleles <= 64 (thorough 256) phased and unphased, a boundary grid of alleles around every
 power of two up to 32767, and the pairs whose packed allele representation is 2^e-1, 2^e, 2^e+1 for every e <= 29 (including
 the sign bit of the 32-bit word and the maximum 2^29-1); genotype indices 0..10^5 (thorough 10^6), every triangular-number
 boundary T(k)-1, T(k), T(k)+1 for k <= 32767, and powers of two +-1 up to 2^29-1.
@@ -89,7 +89,8 @@ def ref_repr(ploidy, phased, alleles):
     return tri(hi) + lo
 
 
-def call_cases():
+def call_cases(tier='quick'):
+    small = 64 if tier == 'quick' else 256
     seen = set()
     out = []
 
@@ -105,8 +106,8 @@ def call_cases():
     for a in list(range(301)) + pow_b:
         for ph in (False, True):
             add(1, ph, (a,), 'haploid')
-    for j in range(65):
-        for k in range(65):
+    for j in range(small + 1):
+        for k in range(small + 1):
             for ph in (False, True):
                 add(2, ph, (j, k), 'small-grid')
     grid = sorted({0, 1, 2, 3, 5, 64, 65, 16382, 16383, 16384, 16385, 32766, 32767}
@@ -267,7 +268,7 @@ def check(tier, seed, procs):
 
     _selfcheck()
     cls = build()
-    cases = call_cases()
+    cases = call_cases(tier)
     gts, n_dense = gt_indices(tier)
     order = {('c',) + c[:3]: n for n, c in enumerate(cases)}
     order.update({('g', i): len(cases) + n for n, i in enumerate(gts)})
@@ -332,7 +333,7 @@ def check(tier, seed, procs):
                  'distinct genotype indices decoded on both sides'),
         'samples': samples,
         'exhaustive': True,
-        'bounds': f'ploidy 0-2; haploid alleles 0..300 + powers of two +-1 up to 2^29-1; diploid alleles <= 64 all pairs, boundary grid up to 32767, '
+        'bounds': f'ploidy 0-2; haploid alleles 0..300 + powers of two +-1 up to 2^29-1; diploid alleles <= {64 if tier == "quick" else 256} all pairs, boundary grid up to 32767, '
                   f'representations 2^e-1..2^e+1 for e <= 29; genotype indices 0..{n_dense} dense + {len(gts) - n_dense - 1} boundary indices up to 2^29-1',
         'calls': len(cases),
         'distinct_words': len(words),
